@@ -25,7 +25,9 @@ ASSUMPTIONS = [
 RULE = ("valid packs (git pack-objects and hand-built) under 1-3 byte flips with and without a recomputed trailer, header-byte "
         "flips, truncations, object-count lies, trailing junk, bad trailer; hand-built packs: inflated length shorter/longer than "
         "declared, dangling and self-describing REF deltas, OFS distance 0 / beyond the start / into the header / into the middle "
-        "of an entry, bad types 0 and 5, size and OFS varint overflow, deltas with wrong source size, out-of-range copy, opcode 0, "
+        "of an entry, bad types 0 and 5, size and OFS varint overflow, deltas with wrong source size (and OFS/REF deltas whose header "
+        "declares a base of real-1, real-k, real/2, 1, 0, real+1, real+k bytes with every copy inside min(declared, real), each "
+        "parser mode in turn), out-of-range copy, opcode 0, "
         "truncated literal, trailing bytes, target size lies, tiny deltas, corrupt zlib streams (adler, preset dictionary, garbage); "
         "depth 4095/4096 chains in the thorough tier; non-trivial = the input differs from a valid pack")
 
@@ -68,6 +70,28 @@ def malicious(rng, kind, hs):
         b.add_raw(P.entry_header(6, len(d)) + b"\xff" * rng.choice([9, 10, 12]) + b"\x01" + P.deflate(d))
     elif kind == "delta-srcsize":
         b.add_ofs(o, P.mk_delta(blob, blob2, src_size=len(blob) + rng.choice([-1, 1])))
+    elif kind in SRC_LIE:
+        # the delta header lies about the size of its base while every instruction stays inside min(declared, real):
+        # only the `srcSz != base size` comparison of patchDeltaWriter can refuse these (git: size != src_size)
+        _, how, lie = kind.split("-")
+        real = len(blob)
+        k = rng.randrange(2, real - 1)
+        declared = {"m1": real - 1, "mk": real - k, "half": real // 2, "one": 1, "zero": 0, "p1": real + 1, "pk": real + k}[lie]
+        lim = min(declared, real)
+        if lim == 0:
+            ops = [("ins", b"abc")]
+        else:
+            a = rng.randrange(0, lim)
+            n = rng.randrange(1, lim - a + 1)
+            ops = rng.choice([[("copy", 0, lim)], [("copy", a, n)], [("copy", 0, n), ("ins", b"xy"), ("copy", lim - 1, 1)]])
+        tgt = sum(o[2] if o[0] == "copy" else len(o[1]) for o in ops)
+        d = P.mk_delta(blob, b"", ops=ops, src_size=declared, tgt_size=tgt)
+        if rng.random() < 0.5:
+            b.add("blob", blob2)      # an unrelated entry between the base and the delta
+        if how == "ofs":
+            b.add_ofs(o, d)
+        else:
+            b.add_ref(P.oid(hs, "blob", blob), d)
     elif kind == "delta-copy-range":
         b.add_ofs(o, P.mk_delta(blob, blob2, ops=[("copy", len(blob) - 2, 5)], tgt_size=5))
     elif kind == "delta-cmd0":
@@ -128,11 +152,14 @@ def malicious(rng, kind, hs):
     return b.build()
 
 
+SRC_LIE = ["srclie-%s-%s" % (how, lie) for lie in ("m1", "mk", "half", "one", "zero", "p1", "pk") for how in ("ofs", "ref")]
+SRC_QUICK = [k for k in SRC_LIE if k.split("-")[2] in ("m1", "mk", "zero", "p1")]    # the others: thorough tier only
+
 HAND = ["short-inflate", "long-inflate", "short-delta", "long-delta", "dangling-ref", "self-ref", "ofs-zero", "ofs-beyond",
         "ofs-header", "ofs-mid", "bad-type", "size-overflow", "ofs-overflow", "delta-srcsize", "delta-copy-range", "delta-cmd0",
         "delta-trunc-literal", "delta-trailing", "delta-tgt-more", "delta-tgt-less", "delta-leb-overflow", "tiny-delta",
         "delta-empty", "zlib-adler", "zlib-dict", "zlib-garbage", "zlib-gap", "count-more", "count-max", "count-less", "junk", "trailer",
-        "version", "signature", "short-file"]
+        "version", "signature", "short-file"] + SRC_QUICK
 
 
 def mutate(rng, kind, pack, hs):
@@ -174,8 +201,8 @@ class Main(Suite):
     name = "main"
     go_cmd = "c08"
     coq_imports = "From GoGit Require Import Model.PackParse."
-    quick_n = 64
-    thorough_n = 400
+    quick_n = 72
+    thorough_n = 480
     coq_chunk = 5
 
     def gen(self, rng, n, tier):
@@ -186,10 +213,19 @@ class Main(Suite):
                 top = rng.randrange(0, r.ncommits - 1)
                 bases.append((r.hs, r.pack(["main~%d" % top], rng.choice([0, 10]), rng.choice([1, 50]), rng.random() < 0.7)))
         packs = []
+        forced = {}      # index in packs -> parser mode (the srclie buckets visit every mode in turn)
+        rot = rng.randrange(len(MODES))
         for k in HAND:
             hs = 32 if rng.random() < 0.15 else 20
+            if k in SRC_LIE:
+                forced[len(packs)] = MODES[(rot + len(forced)) % len(MODES)]
             packs.append((k, hs, malicious(rng, k, hs)))
         if tier == "thorough":
+            for k in SRC_LIE:
+                for m in MODES:
+                    hs = 32 if rng.random() < 0.15 else 20
+                    forced[len(packs)] = m
+                    packs.append((k, hs, malicious(rng, k, hs)))
             packs.append(("deep-ok", 20, malicious(rng, "deep-ok", 20)))
             packs.append(("deep-over", 20, malicious(rng, "deep-over", 20)))
         while len(packs) < n:
@@ -203,8 +239,9 @@ class Main(Suite):
                 packs.append((k, hs, mutate(rng, k, base, hs)))
         zts = P.ztables([p[2] if len(p[2]) <= MODEL_CAP else b"" for p in packs])
         cases = []
-        for (bucket, hs, pack), zt in zip(packs, zts):
-            cases.append({"bucket": bucket, "kind": "parse", "fmt": "sha256" if hs == 32 else "sha1", "mode": rng.choice(MODES),
+        for i, ((bucket, hs, pack), zt) in enumerate(zip(packs, zts)):
+            mode = rng.choice(MODES)
+            cases.append({"bucket": bucket, "kind": "parse", "fmt": "sha256" if hs == 32 else "sha1", "mode": forced.get(i, mode),
                           "pack": pack.hex(), "store": [], "zt": zt if len(pack) <= MODEL_CAP else None})
         return cases
 
